@@ -77,3 +77,31 @@ func VerifHarness_C02_Suggestions() {
 	}
 	verifReach("compared")
 }
+
+// three distinct query words that all hit one command: the per-command score is a sum of
+// three terms, which must not depend on the order in which any map hands them out
+func VerifHarness_C02_ThreeTerms() {
+	mk := func(cmd, desc string, kws ...string) Command {
+		c := Command{Command: cmd, Description: desc, Keywords: kws}
+		vFill(&c)
+		return c
+	}
+	db := &Database{Commands: []Command{
+		mk("aa bb cc", "dd aa aa ee", "cc", "ff"), mk("bb", "aa cc cc cc gg"), mk("ii", "jj"),
+	}}
+	db.BuildUniversalIndex()
+	db.buildTFIDFSearcher()
+	q := []string{"aa bb cc", "aa bb cc aa", "bb cc dd"}[verifIntRange("query", 0, 2)]
+	o := SearchOptions{Limit: 3, AllPlatforms: true}
+	// the first run walks every map in one fixed order, the second in every order: an answer
+	// that depends on some order differs from the reference for at least one of them
+	a := db.SearchUniversal(q, o)
+	verifMapOrder(3)
+	b := db.SearchUniversal(q, o)
+	verifMapOrder(1)
+	c02SameResults(a, b, "SearchUniversal, three terms")
+	verifReach("compared")
+	if len(a) > 0 {
+		verifReach("nonempty")
+	}
+}
